@@ -721,6 +721,11 @@ func c14GateSeesCoercedVariables(c *Ctx) {
 	// the mutators may be called by CreateOperationContext itself or by a helper of the package it hands the operation context to
 	// (`return opCtx, e.bindOperation(ctx, opCtx, params)`): each such function is examined the same way
 	fns := []*ssa.Function{create}
+	for _, cl := range an.WithClosures(create) {
+		if cl != create {
+			fns = append(fns, cl) // a literal of CreateOperationContext that is handed to a helper (applyMutators(list, func(m) …))
+		}
+	}
 	for _, call := range an.CallsIn(create, func(_ ssa.CallInstruction, ci an.CalleeInfo) bool {
 		return ci.Static != nil && ci.Static.Pkg != nil && ci.Static.Pkg.Pkg.Path() == pkgExecutor && len(ci.Static.Blocks) > 0
 	}) {
@@ -793,7 +798,15 @@ func c14GateSeesCoercedVariables(c *Ctx) {
 			if dom == nil && fn != create {
 				// the loop over the mutators lives in a helper that does no coercion itself: what counts is where
 				// CreateOperationContext calls the helper
-				for _, site := range an.CallsIn(create, func(ci ssa.CallInstruction, _ an.CalleeInfo) bool { return ci.Common().StaticCallee() == fn }) {
+				sites := an.CallsIn(create, func(ci ssa.CallInstruction, _ an.CalleeInfo) bool { return ci.Common().StaticCallee() == fn })
+				if fn.Parent() == create {
+					for _, p := range mutatorCallPoints(create, "MutateOperationContext") {
+						if ci, ok := p.(ssa.CallInstruction); ok {
+							sites = append(sites, ci)
+						}
+					}
+				}
+				for _, site := range sites {
 					if site.Parent() != create {
 						continue
 					}
